@@ -260,6 +260,18 @@ theorem suicide_undo_clears_older_suicide :
     (s1.accts 1).suicided = true ∧ (s2.accts 1).suicided = false := by
   decide
 
+/-- full statement FALSE for `SetSuicide`: `undoSuicide` restores balance, code hash and storage root only, but
+    `SetSuicide(true)` also drops the asset-code and asset-id roots: an asset DEFINED by the account (it is the
+    issuer) is gone after the suicide is undone, and the revert reports success.  In the deployed flows only
+    externally owned accounts issue assets and only contracts self-destruct, so this needs the journal API to
+    be driven directly (known finding c07/revert-mismatch/assetcode/after-suicide-undo). -/
+theorem suicide_undo_loses_asset_roots :
+    let s1 := run true true s00 [.w 1 (.assetCode 1 (some { supply := 9, p1 := 2, p2 := 0 })), .w 1 (.assetId 1 4), .snap]
+    let r := revert true true (run true true s1 [.w 1 .suicide]) 0
+    (s1.accts 1).getAssetCode 1 = some { supply := 9, p1 := 2, p2 := 0 } ∧ (s1.accts 1).getAssetId 1 = 4 ∧
+    r.2 = .ok ∧ (r.1.accts 1).getAssetCode 1 = none ∧ (r.1.accts 1).getAssetId 1 = 0 := by
+  decide
+
 /-- `undoCode` leaves Keccak(nil) where the zero hash was (both mean "no code": the harness and the
     evidence treat them as equal, stated here for the record). -/
 theorem code_undo_leaves_empty_hash :
@@ -271,6 +283,42 @@ theorem code_undo_leaves_empty_hash :
 
 example : Good s00.accts := by
   intro i; exact ⟨by intro k _; simp [s00], by intro t; simp [s00]⟩
+
+/-- **good_of_loaded**: the hypotheses of `revert_exact` hold for every account map as the manager LOADS it
+    from a block's view: the asset-code view agrees with the committed trie wherever the root is set (and is
+    empty otherwise), and the working version counters are not behind the stored ones.  This is what `reset`
+    builds in the driver, for any committed content — not just the empty `s00`. -/
+theorem good_of_loaded (A : Nat → Acct)
+    (hview : ∀ i k, (A i).assetCode k = if (A i).acRoot then (A i).com.assetCode k else none)
+    (hver : ∀ i t, (A i).baseVer t ≤ (A i).nextVer t) : Good A := by
+  intro i
+  refine ⟨?_, hver i⟩
+  intro k hk
+  rw [← hview i k]; exact hk
+
+/-- a loaded state with committed storage, a committed asset and stored versions satisfies the hypotheses of
+    `revert_exact`, and a nested script on top of it satisfies `Script` (so the theorem is not about empty
+    accounts only) -/
+def sLoaded : St :=
+  { accts := fun i =>
+      if i = 0 then
+        { balance := 1000, votes := 9, acRoot := true, sRoot := true,
+          storage := fun k => if k = 1 then 11 else 0,
+          assetCode := fun k => if k = 1 then some { supply := 500, p1 := 7, p2 := 0 } else none,
+          com := { storage := fun k => if k = 1 then 11 else 0,
+                   assetCode := fun k => if k = 1 then some { supply := 500, p1 := 7, p2 := 0 } else none },
+          baseVer := fun t => if t = 1 then 3 else 0, nextVer := fun t => if t = 1 then 3 else 0 }
+      else {} }
+
+example : Good sLoaded.accts := by
+  apply good_of_loaded
+  · intro i k; unfold sLoaded; by_cases h : i = 0 <;> simp [h]
+  · intro i t; unfold sLoaded; by_cases h : i = 0 <;> simp [h]
+
+example : Script 0 (snapshot sLoaded).1
+    [.w 0 (.balance 5), .w 0 (.assetCodeSupply 1 600), .snap, .w 0 (.storage 1 2), .w 0 (.assetCode 1 none), .snap,
+     .w 0 (.assetCode 1 (some { supply := 1, p1 := 0, p2 := 0 })), .rev 2, .w 0 (.storage 1 0), .rev 1, .w 0 (.votes 4)] := by
+  unfold Script; decide
 
 /-- a three-level nested script satisfying `Script` -/
 example : Script 0 (snapshot s00).1
